@@ -133,6 +133,10 @@ func runC16(ctx *Ctx) {
 	if ctx.Idx%6 == 4 {
 		runC16SlowStore(ctx)
 	}
+	// on another case index in 6, additionally: a history of ingests on one sorter (c16hist.go)
+	if ctx.Idx%6 == 1 {
+		runC16History(ctx)
+	}
 }
 
 // c16FillModelInput derives, for nb blocks, what the model needs: the effective worker count, the
@@ -252,6 +256,14 @@ func corpusC16(ctx *Ctx, op string, raw json.RawMessage) {
 	}
 	if op == "pbar" {
 		corpusC16PBar(ctx, raw)
+		return
+	}
+	if op == "ingest-history" {
+		var in c16HistInput
+		if err := json.Unmarshal(raw, &in); err != nil {
+			panic(err)
+		}
+		ctx.Emit("ingest-history", &in, c16HistRun(&in), true, "history", "corpus")
 		return
 	}
 	if op == "ingest-cli" {
